@@ -1538,6 +1538,9 @@ _ALPHA = [
     (["remove_genes", ["g1"], True, "id"], "qt"), (["remove_genes", ["g1"], False, "id"], "q"), (["remove_genes", ["g3"], True, "obj"], "q"),
     (["remove_genes", ["g2", "g3"], False, "id"], ""), (["remove_genes", ["zz"], True, "id"], "q"),
     (["rename_genes", {"g1": "g9"}], "qt"), (["rename_genes", {"g1": "g2"}], "q"), (["rename_genes", {"g3": "g1", "zz": "g5"}], ""),
+    # two genes renamed onto the same NEW identifier in one call: the second entry depends on the first (added after a seeded change
+    # that rebuilt the index of model.genes only once per call was missed)
+    (["rename_genes", {"g1": "g9", "g2": "g9"}], "q"),
     (["add_groups", [["grp2", "classification", [["reaction", "R1"], ["metabolite", "d_c"], ["gene", "g1"]]]]], "q"),
     (["add_groups", [["grp1", "collection", [["reaction", "R1"]]]]], "q"),
     (["remove_groups", ["grp1"], "obj"], "q"), (["remove_groups", ["grp1"], "str"], "q"), (["remove_groups", ["zz"], "obj"], ""),
